@@ -230,10 +230,10 @@ PROPS.update({
 })
 PROPS["C12"] = {
     "level": "other",
-    "lean_modules": ["ApdVerif.Props.C12", "ApdVerif.Props.C12Interval"],
-    "theorem_prefixes": ["C12_", "C12I_"],
+    "lean_modules": ["ApdVerif.Props.C12", "ApdVerif.Props.C12Interval", "ApdVerif.Props.GenTieConsts"],
+    "theorem_prefixes": ["C12_", "C12I_", "GenTie_ln10", "GenTie_constVals"],
     "streams": [{"stream": "translog", "n": {"quick": 25000, "thorough": 500000}}],
-    "projections": ["value", "repr", "flags", "err"],
+    "projections": ["value", "repr", "flags", "err", "tape", "consts"],
     "oracle_tags": ["C12"],
     "explanation": "partial: proved in Lean for all inputs - the exact cases (exp(0), ln(1), log10(1), x**0, x**1, integer powers whose exact value fits) on the modelled part of the code (special-value prologues and the float-free integer-power path of Pow, which is correspondence-checked), and the soundness of the outward-rounded interval arithmetic behind the oracles (see Props/C12Interval.lean for how far). NOT proved: the one-ulp accuracy of the Taylor/Halley/atanh series, which are steered by float64 estimates. Every generated case (operands with more digits than Precision, ln near 1, exp near the over/underflow thresholds, integer, half-integer and fractional powers, Precision 1..34) is judged by rational enclosures of exp and ln: a failure is reported only when the result is certainly more than one ulp from every point of the enclosure; claimed overflow/underflow is checked against the enclosure",
     "trusted_extra": [COMPOSITE_NOTE, "strLn10/strInvLn10 digit strings: their leading digits are compared with the interval enclosure of ln 10 through every Ln/Log10 case that is rescaled by ln 10"],
